@@ -14,6 +14,7 @@
 #include <sys/prctl.h>
 #include <sys/wait.h>
 
+#include <sanitizer/common_interface_defs.h>
 #include <sanitizer/lsan_interface.h>
 
 #include <phosg/Filesystem.hh>
@@ -227,9 +228,51 @@ extern "C" ssize_t __wrap_write(int fd, const void* buf, size_t n) {
 enum Flags : uint64_t { FL_CHECK = 1, // run_process(check = true)
   FL_NO_STDIN = 2, // run_process(stdin_data = nullptr)
   FL_STDERR_FILE = 4 }; // communicate: the child's stderr goes to a file instead of an unread pipe
-// bits 8..11 of the flags: extra identical run_process calls; bits 16..23: period in ms of the ambient SIGALRM stream (0 = none)
+// bits 8..11 of the flags: extra identical run_process calls; bits 16..23: period in ms of the ambient SIGALRM stream (0 = none);
+// bits 24..26: which of its own descriptors 0 / 1 / 2 the caller has closed
 static inline uint64_t tick_period_us(uint64_t flags) { return ((flags >> 16) & 0xFF) * 1000; }
 static inline uint64_t tick_flag(uint64_t ms) { return (ms & 0xFF) << 16; }
+// bits 24..26: the caller's own descriptors 0 / 1 / 2 that are CLOSED while it makes the call (a daemon after close(0), `prog <&-`, `prog >&-`).
+// Which of its standard descriptors the calling process has open is ambient state: the property holds for a caller in any of those
+// states, and the pipes the call creates then land on the numbers 0..2.
+static inline uint64_t closed_fds_mask(uint64_t flags) { return (flags >> 24) & 7; }
+static inline uint64_t closed_fds_flag(uint64_t mask) { return (mask & 7) << 24; }
+
+// Closes the descriptors named by mask (bit k = descriptor k) for the lifetime of the object; the originals are parked on high
+// close-on-exec numbers and put back afterwards. Sanitizer reports are redirected to the parked stderr meanwhile.
+struct ClosedStdFds {
+  int saved[3] = {-1, -1, -1};
+  bool active = false;
+  explicit ClosedStdFds(uint64_t mask) {
+    if (!(mask & 7)) return;
+    active = true;
+    for (int fd = 0; fd < 3; fd++) {
+      if (!((mask >> fd) & 1)) continue;
+      saved[fd] = fcntl(fd, F_DUPFD_CLOEXEC, 200);
+      if (saved[fd] < 0) {
+        int e = errno;
+        restore();
+        throw std::logic_error(cat("harness: cannot park descriptor ", fd, ": ", strerror(e)));
+      }
+      if (fd == 2) __sanitizer_set_report_fd(reinterpret_cast<void*>(static_cast<intptr_t>(saved[2])));
+      ::close(fd);
+    }
+  }
+  void restore() {
+    if (!active) return;
+    active = false;
+    for (int fd = 0; fd < 3; fd++) {
+      if (saved[fd] < 0) continue;
+      dup2(saved[fd], fd);
+      if (fd == 2) __sanitizer_set_report_fd(reinterpret_cast<void*>(static_cast<intptr_t>(2)));
+      ::close(saved[fd]);
+      saved[fd] = -1;
+    }
+  }
+  ~ClosedStdFds() { restore(); }
+  ClosedStdFds(const ClosedStdFds&) = delete;
+  ClosedStdFds& operator=(const ClosedStdFds&) = delete;
+};
 
 struct Model {
   std::string out, err;
@@ -239,6 +282,7 @@ struct Model {
   bool never_exits = false;
   bool ignores_term = false;
   bool closes_stdin_early = false;
+  uint64_t closed_streams = 0; // bit per descriptor 0..2 the child closes itself (before it exits / pauses)
   uint64_t descendant_holds = 0; // descriptors (bit per fd 0..2) a background descendant keeps open after the child has exited
   uint64_t sleep_us = 0; // sleeping the script asks for
   bool sleep_after_last_write = false;
@@ -287,7 +331,10 @@ static Model build_model(const std::vector<Op>& ops, const std::string& payload,
         m.sleep_after_last_write = true;
         break;
       case 'C':
-        if (op.a[0] < 3) closed[op.a[0]] = true;
+        if (op.a[0] < 3) {
+          closed[op.a[0]] = true;
+          m.closed_streams |= 1u << op.a[0];
+        }
         if (op.a[0] == 0 && m.consumed < payload.size()) m.closes_stdin_early = true;
         break;
       case 'X': m.status = static_cast<int>(op.a[0] & 0xFF) << 8; return m;
@@ -367,6 +414,7 @@ static CaseSpec decode(const Case& c) {
     s.plan.push_back(d);
   }
   if (tick_period_us(s.flags) && tick_period_us(s.flags) < 10000) throw std::logic_error("case: signal period below 10 ms");
+  if (s.flags >> 27) throw std::logic_error("case: unknown flag bits");
   return s;
 }
 
@@ -473,12 +521,16 @@ static void evaluate(const Case& c, Outcome& o) {
   const uint64_t tick_us = tick_period_us(s.flags);
   if (tick_us) o.classes.push_back(s.timeout_us && m.never_exits ? "signals:timeout-must-fire" : "signals");
   if (m.descendant_holds & 6) o.classes.push_back(s.timeout_us ? "descendant-holds-output:timeout-given" : "descendant-holds-output:no-timeout");
+  const uint64_t closed_mask = closed_fds_mask(s.flags);
+  if (closed_mask) o.classes.push_back(cat("caller-has-closed-descriptors:", (closed_mask & 1) ? "0" : "", (closed_mask & 2) ? "1" : "", (closed_mask & 4) ? "2" : ""));
+  if (m.never_exits && s.timeout_us && m.closed_streams) o.classes.push_back(cat("timeout-must-fire:child-closed-", (m.closed_streams & 1) ? "stdin" : "", (m.closed_streams & 2) ? "stdout" : "", (m.closed_streams & 4) ? "stderr" : ""));
   o.nontrivial = payload.size() > 65536 || m.out.size() > 65536 || m.err.size() > 65536 || (!s.plan.empty() && !m.sleep_after_last_write && !m.never_exits) ||
-      (m.descendant_holds & 6) || (tick_us && m.never_exits);
+      (m.descendant_holds & 6) || (tick_us && m.never_exits) || (m.never_exits && m.closed_streams) || closed_mask;
 
   if (s.api == 0) {
     const char* api = "run-process";
     bool check = (s.flags & FL_CHECK) != 0;
+    ClosedStdFds closed_std(closed_mask); // from here to the end of the last call the caller's descriptors named by the mask are closed
     std::set<int> before = open_fds();
     // "however many times it is called": bits 8..11 of the flags ask for that many extra identical calls
     uint64_t extra_calls = (s.flags >> 8) & 0xF;
@@ -538,6 +590,7 @@ static void evaluate(const Case& c, Outcome& o) {
     VCHECK(leaked.empty(), cat(api, "-fd-leak"), "descriptors open after run_process (call ", call + 1, ") that were not open before the first call: ", leaked);
     for (int fd : before) VCHECK(after.count(fd), cat(api, "-closed-foreign-fd"), "run_process closed descriptor ", fd, " which it did not open");
     } // repeated calls
+    closed_std.restore();
   } else if (s.api == 1) {
     const char* api = "communicate";
     int err_fd = -1;
@@ -556,6 +609,7 @@ static void evaluate(const Case& c, Outcome& o) {
     int status = -1;
     pid_t child = -1;
     {
+      ClosedStdFds closed_std(closed_mask); // the Subprocess is created, used and destroyed by a caller whose descriptors named by the mask are closed
       g_delay.armed = true;
       tick_begin(tick_us, s.timeout_us);
       phosg::Subprocess sp(cmd, -1, -1, err_fd); // the signal stream starts in fork(), i.e. only when this succeeded
@@ -679,7 +733,7 @@ static std::string one_line(std::string s, size_t max) {
 static void run_case(const Case& c) {
   if (g_deadlock_seen) {
     // each further deadlock would cost another 10 s of silence; the first one is the finding
-    ctx().exclude("skipped-after-deadlock-in-this-shard");
+    ctx().exclude("skipped-after-deadlock-or-runaway-in-this-shard");
     return;
   }
   if (g_failures_seen >= kMaxFailuresPerShard) {
@@ -706,6 +760,12 @@ static void run_case(const Case& c) {
   uint64_t volume = spec.payload_size + model.out_size + model.err_size + (model.out_size ? spec.payload_size : 0);
   uint64_t io_bound = 6 * volume + (64ull << 20);
   uint64_t cpu_bound_ticks = 90ull * sysconf(_SC_CLK_TCK);
+  // "A timeout ends the child", for a caller that is busy instead of asleep: the CPU time the (single-threaded) worker has consumed is
+  // a LOWER bound of the time that has passed since it started - whatever the machine load. A call that has to time out after T and is
+  // still running when the worker alone has burnt T + 1.5 s (poll granularity) [+ 6.5 s of SIGTERM->SIGKILL escalation] + 10 s has
+  // missed its timeout by more than 10 s (such a case needs well under a second of CPU when the timeout works).
+  uint64_t overrun_ticks = 0;
+  if (model.never_exits && spec.timeout_us) overrun_ticks = (spec.timeout_us + 1500000 + (model.ignores_term ? 6500000 : 0) + 10000000) * static_cast<uint64_t>(sysconf(_SC_CLK_TCK)) / 1000000;
   g_shared->child_pid = 0;
   g_shared->forks = 0;
   int rp[2];
@@ -763,10 +823,20 @@ static void run_case(const Case& c) {
     uint64_t sum = 0, part = 0;
     if (read_io(worker, part)) sum += part;
     if (child > 0 && read_io(child, part)) sum += part;
-    uint64_t cpu = 0;
-    if (read_cpu_ticks(worker, part)) cpu += part;
+    uint64_t cpu = 0, worker_cpu = 0;
+    if (read_cpu_ticks(worker, part)) cpu += part, worker_cpu = part;
     if (child > 0 && read_cpu_ticks(child, part)) cpu += part;
     char st[2] = {proc_state(worker), child > 0 ? proc_state(child) : char(0)};
+    if (overrun_ticks && worker_cpu > overrun_ticks && sum <= io_bound) {
+      runaway = "timeout-overrun-busy";
+      dl_detail = cat("the timeout is ", spec.timeout_us, " us and the child never exits by itself, but the call has not returned although the calling process alone has consumed ", worker_cpu,
+          " clock ticks of CPU (", worker_cpu * 1000 / static_cast<uint64_t>(sysconf(_SC_CLK_TCK)), " ms - a lower bound of the time that has passed): the timeout did not end the child; worker state ", st[0] ? st[0] : '?',
+          ", child ", child, " state ", st[1] ? st[1] : '?', "; rchar+wchar total ", sum);
+      ::kill(-worker, SIGKILL);
+      __real_waitpid(worker, &wstatus, 0);
+      done = true;
+      break;
+    }
     if (sum > io_bound || cpu > cpu_bound_ticks) {
       runaway = sum > io_bound ? "runaway-io" : "livelock";
       dl_detail = cat("worker and child have moved ", sum, " bytes (the case needs about ", volume * 2, ") and used ", cpu, " clock ticks of CPU: a loop that does not terminate; worker state ", st[0] ? st[0] : '?', ", child state ", st[1] ? st[1] : '?');
@@ -816,6 +886,7 @@ static void run_case(const Case& c) {
   const char* api = spec.api == 0 ? "run-process" : "communicate";
   if (runaway) {
     g_failures_seen++;
+    g_deadlock_seen = true; // each further one would cost tens of seconds of CPU; the first one is the finding
     VFAIL(cat(api, "-", runaway), dl_detail);
   }
   if (deadlock) {
@@ -890,11 +961,24 @@ static uint64_t gen_chunk(uint64_t vol) {
 }
 static std::string wg(int fd, uint64_t vol) { return w(fd, vol, gen_chunk(vol)); }
 
+// Reported defect, kept out of the generator until it is decided: when TWO OR MORE of the caller's descriptors 0 / 1 / 2 are closed, the
+// parent's own pipe ends land on the numbers 1 / 2 and Subprocess's child branch closes them AFTER it has installed the child's
+// stdout / stderr there with dup2 - the child runs without stdout and/or stderr (output lost; communicate can then wait for ever).
+static const char* const kMultiClosedExclusion = "caller with two or more of its descriptors 0/1/2 closed (reported defect: the child starts without stdout and/or stderr)";
+static uint64_t gen_closed_mask() {
+  uint64_t mask = vg::pick<uint64_t>({1, 1, 1, 2, 4, 3, 5, 6, 7});
+  if (mask & (mask - 1)) {
+    ctx().exclude(kMultiClosedExclusion);
+    mask &= ~(mask - 1); // lowest descriptor of the set only
+  }
+  return mask;
+}
+
 static Case gen_subprocess() {
   Draft d;
   d.api = vg::below(2);
   bool comm = d.api == 1;
-  uint64_t b = vg::pick<uint64_t>({0, 0, 1, 1, 2, 2, 2, 3, 3, 3, 4, 5, 5, 5, 6, 7, 7, 8, 8, 9, 10, 11, 11, 12});
+  uint64_t b = vg::pick<uint64_t>({0, 0, 1, 1, 2, 2, 2, 3, 3, 3, 4, 5, 5, 5, 6, 7, 7, 8, 8, 9, 10, 11, 11, 12, 13});
   d.behaviour = b;
   d.payload = gen_volume(4u << 20);
   if (comm) {
@@ -957,6 +1041,30 @@ static Case gen_subprocess() {
       d.script += fin;
       break;
     }
+    case 13: { // closes one or more of its streams and then never exits: only a timeout ends it - while the parent's end of the closed
+      // pipe stays "ready" for ever (POLLHUP without POLLIN on a read end, POLLERR without POLLOUT on the write end of a full pipe)
+      d.timeout = 100000 + vg::below(60000); // short: a caller that polls a permanently ready descriptor is busy until the timeout fires
+      // under communicate the child keeps stdout open (stated assumption): it may close stdin and/or stderr
+      uint64_t which = comm ? vg::pick<uint64_t>({1, 4, 5}) : vg::pick<uint64_t>({1, 2, 2, 4, 4, 6, 3, 7});
+      if (which & 1) {
+        // stdin closed with payload still unread: more than a pipe's worth, so that the parent's write end is full when it happens
+        d.flags &= ~static_cast<uint64_t>(FL_NO_STDIN);
+        d.payload = vg::coin() ? 65537 + vg::below(300000) : std::max<uint64_t>(d.payload, 1);
+        if (vg::coin()) d.script += cat("R", vg::below(d.payload), ";");
+      } else if (vg::coin()) {
+        d.script += "E;";
+      }
+      for (int fd : {1, 2}) { // at most 60000 bytes per stream: the child never blocks on a pipe the parent is not reading yet
+        if (vg::chance(2, 3)) d.script += w(fd, gen_volume(fd == 2 ? std::min<uint64_t>(err_max, 60000) : 60000));
+        if ((which >> fd) & 1) d.script += cat("C", fd, ";");
+      }
+      if (which & 1) d.script += "C0;";
+      if (vg::chance(1, 3)) d.script += cat("S", vg::below(30), ";");
+      if (!comm && vg::chance(1, 20)) d.script += "I15;";
+      d.script += "Z";
+      if ((which & 1) && vg::coin()) d.plan.push_back({vg::coin() ? (uint64_t)D_POLL : (uint64_t)D_WRITE, vg::below(3), ACT_WAIT_CHILD_STDIN_CLOSED, 0});
+      break;
+    }
     case 12: { // starts a background descendant that inherits the output pipes and outlives the child (a daemon, `cmd &`)
       // what the descendant keeps open: stdout and/or stderr, sometimes stdin too; only stderr under communicate
       uint64_t mask = comm ? 4 : vg::pick<uint64_t>({6, 6, 2, 4});
@@ -990,9 +1098,11 @@ static Case gen_subprocess() {
       break;
     }
   }
-  if (!comm && b != 8 && b != 12 && d.payload <= 70000 && vg::chance(1, 4)) d.flags |= (1 + vg::below(3)) << 8; // 1..3 extra calls
+  if (!comm && b != 8 && b != 12 && b != 13 && d.payload <= 70000 && vg::chance(1, 4)) d.flags |= (1 + vg::below(3)) << 8; // 1..3 extra calls
   // ambient periodic signals in the calling process: half of the calls whose timeout has to fire, a sixth of the rest
-  if (b == 8 ? vg::coin() : vg::chance(1, 6)) d.flags |= tick_flag(vg::pick<uint64_t>({30, 50, 70, 100}));
+  if ((b == 8 || b == 13) ? vg::coin() : vg::chance(1, 6)) d.flags |= tick_flag(vg::pick<uint64_t>({30, 50, 70, 100}));
+  // the caller's own standard descriptors: in a fifth of the cases some of 0 / 1 / 2 are closed while it makes the call
+  if (vg::chance(1, 5)) d.flags |= closed_fds_flag(gen_closed_mask());
   // parent-side sleeps at the k-th waitpid/poll/read/write
   if (vg::coin()) {
     uint64_t n = 1 + vg::below(3);
@@ -1098,6 +1208,33 @@ static void enum_grid(Enum& e) {
       d.behaviour = 2;
       d.script = "P4096;S150;X0";
       if (e.mine(idx++)) e.exec(d.to_case(47));
+    }
+    for (uint64_t which = 1; which < 8; which++) {
+      // the child closes stdin (with > 64 KiB unread) / stdout / stderr and then never exits: the timeout has to end it all the same
+      if (v.api == 1 && (which & 2)) continue; // under communicate the child keeps stdout open
+      Draft d;
+      d.api = v.api;
+      d.flags = v.flags & ~static_cast<uint64_t>(FL_CHECK);
+      d.timeout = 120000;
+      d.payload = (which & 1) ? 200000 : 10;
+      d.behaviour = 13;
+      d.script = ((which & 1) ? std::string("R1000;") : std::string("E;")) + w(1, 3000) + w(2, 200) + ((which & 2) ? "C1;" : "") + ((which & 4) ? "C2;" : "") + ((which & 1) ? "C0;" : "") + "Z";
+      if (e.mine(idx++)) e.exec(d.to_case(49));
+    }
+    for (uint64_t mask = 1; mask < 8; mask++) {
+      // the caller itself has some of its descriptors 0 / 1 / 2 closed: cat with more than a pipe's worth, something on stderr, status 3
+      if (mask & (mask - 1)) {
+        if (e.mine(idx++)) ctx().exclude(kMultiClosedExclusion);
+        continue;
+      }
+      Draft d;
+      d.api = v.api;
+      d.flags = (v.flags & ~static_cast<uint64_t>(FL_CHECK)) | closed_fds_flag(mask);
+      d.timeout = v.timeout;
+      d.payload = 70000;
+      d.behaviour = 2;
+      d.script = "P4096;" + w(2, 300) + "X3";
+      if (e.mine(idx++)) e.exec(d.to_case(50));
     }
     for (uint64_t linger_ms : {0, 200}) {
       Draft d; // the child leaves a background descendant behind that holds the output pipes (stderr only under communicate)
